@@ -209,6 +209,7 @@ def run(tier):
     pick += [x for x in with_hdr if len(set(x[1]['expected']['header'])) < len(x[1]['expected']['header']) and x not in pick]
     cli_leg(ck, pick)
     client_cli_leg(ck, pick)
+    gone_leg(ck, rnd.sample(pick, min(len(pick), 12 if tier == 'quick' else 120)))
     twins_leg(ck, rnd.sample(nonascii, min(len(nonascii), 8 if tier == 'quick' else 60)))
     ck.sample({'wire_text': bs(exps[7]['wire']).decode('latin-1'), 'expected_software': bs(exps[7]['banner']['software']).decode('latin-1'),
                'expected_header': [bs(h).decode('latin-1') for h in exps[7]['header']]})
@@ -257,6 +258,37 @@ def client_cli_leg(ck, cli):
         else:
             ck.cov['traces_validated_against_impl'] += 1
             ck.nontrivial(('client-cli', bs(e['wire'])))
+
+
+def gone_leg(ck, cli):
+    """A server that sends its lines and goes away before the tool has written its own identification string (the write fails with EPIPE or
+    ECONNRESET; what was received can still be read): the lines it sent are reported all the same - header text, the identification string
+    and what it names - before the connection error."""
+    import errno
+    scs, meta = [], []
+    for e, replay in cli:
+        wire_b = bs(e['wire'])
+        lines = wire_b.split(b'\n')
+        eol = b'\r\n' if lines[0].endswith(b'\r') or (len(lines) > 1 and wire_b.endswith(b'\r\n')) else b'\n'
+        body = [l.rstrip(b'\r') if eol == b'\r\n' else l for l in lines[:-1]]
+        for en in (errno.EPIPE, errno.ECONNRESET):
+            cfg = peers.ServerCfg(banner=body[-1], prebanner=body[:-1], eol=eol, gone_after_banner=en)
+            scs.append({'argv': ['-n', '--skip-rate-test', '-2', rating.HOST], 'servers': {(rating.HOST, 22): cfg}})
+            meta.append((replay, en))
+    for (replay, en), r in zip(meta, runner.run_many(scs)):
+        ck.evaluated()
+        if r.get('harness_error') or r.get('hang'):
+            raise common.Machinery('gone-after-banner run failed: %r' % (r.get('harness_error') or 'hang'))
+        want = replay['expected']
+        rp = dict(replay, write_fails_with=errno.errorcode[en], exit=r['exit'], stdout=r['stdout'][-1500:])
+        tx = report.parse_text(r['stdout'])
+        hdr = [h.rstrip() for h in tx.get('header', [])]
+        if tx['gen'].get('banner') != want['rendered'] or hdr != want['header']:
+            ck.violation('lines-of-a-vanished-server-not-reported', 'the server sent %r and went away (writes fail with %s): the report shows banner %r, header %r'
+                         % (replay['wire_text'], errno.errorcode[en], tx['gen'].get('banner'), hdr), rp)
+        else:
+            ck.cov['traces_validated_against_impl'] += 1
+            ck.nontrivial(('gone', replay['wire'], en))
 
 
 def twins_leg(ck, cli):
